@@ -1025,7 +1025,45 @@ func ruleC01Ops(c *Ctx) {
 	// helper, the caller, a table).
 	tt := p.SSAFunc(p.Method("ast", "BinaryExprNode", "TypeTransformBool"))
 	c.Analysed(FnName(tt))
-	toUpper := p.Method("ast", "BinaryExprNode", "toUpper")
+	// the upper-casing helper, found by role: the function of the package that takes a StringNode, answers a
+	// StringNode and upper-cases (strings.ToUpper, itself or in a closure it makes) — a method of the
+	// expression or a free function, under whatever name
+	var toUpper *types.Func
+	{
+		strNode := p.Named("ast", "StringNode")
+		var cands []*types.Func
+		for _, f := range c.prodFuncs("ast") {
+			obj, _ := f.Object().(*types.Func)
+			if obj == nil || f.Signature.Results().Len() != 1 || !types.Identical(f.Signature.Results().At(0).Type(), strNode) {
+				continue
+			}
+			takes := false
+			for i := 0; i < f.Signature.Params().Len(); i++ {
+				if types.Identical(f.Signature.Params().At(i).Type(), strNode) {
+					takes = true
+				}
+			}
+			if !takes || f.Signature.Params().Len() != 1 {
+				continue
+			}
+			uppers := false
+			for _, g := range allFuncsWithAnon(f) {
+				for _, call := range callsIn(g) {
+					if cal, _ := calleeOf(call.Common()); cal != nil && cal.Pkg() != nil && cal.Pkg().Path() == "strings" && cal.Name() == "ToUpper" {
+						uppers = true
+					}
+				}
+			}
+			if uppers {
+				cands = append(cands, obj)
+			}
+		}
+		if len(cands) == 1 {
+			toUpper = cands[0]
+		} else {
+			toUpper = p.Method("ast", "BinaryExprNode", "toUpper")
+		}
+	}
 	bsn := p.Named("ast", "BinaryStringExprNode")
 	ops := opConsts(c)
 	opFld := p.Field("ast", "BinaryExprNode", "op")
@@ -1100,8 +1138,8 @@ func ruleC01Ops(c *Ctx) {
 				if invokeNamed(x, "GetType") && x.Call.IsInvoke() && operandName(x.Call.Value) != "" {
 					return avInt(strType), true
 				}
-				if isCallTo(x, toUpper) && len(x.Call.Args) == 2 {
-					if nm := operandName(x.Call.Args[1]); nm != "" {
+				if isCallTo(x, toUpper) && len(x.Call.Args) >= 1 {
+					if nm := operandName(x.Call.Args[len(x.Call.Args)-1]); nm != "" {
 						return AV{Kind: "nonnil", Sym: "upper:" + nm}, true
 					}
 					return AV{Kind: "nonnil", Sym: "upper:?"}, true
